@@ -39,7 +39,10 @@ Record item := {
 }.
 
 Record case := {
-  k_workers : N; k_dry : bool; k_kept : N; k_cfg : cfg; k_tables : list (list rule);
+  k_workers : N; k_dry : bool; k_kept : N;
+  k_stop : N;   (* 0 no stop op, 1 Stop returned nil, 2 Stop failed or hung *)
+  k_leak : N;   (* goroutines alive after shutdown minus before Start *)
+  k_cfg : cfg; k_tables : list (list rule);
   k_ntr : N; k_flush : N; k_items : list item
 }.
 
